@@ -14,9 +14,15 @@ TRUSTED = [
     "Elligator 2, Montgomery->Edwards map, affine twisted Edwards law); the C code of these maps is class C (compared with the specification "
     "on the presented lines only, no model); irreducibility of the reduction polynomial and the Edwards/binary group laws of the library are "
     "C16 / C17 / C18",
-    "NOT COVERED: curves over extension fields (ep2_map*, ep3/ep4/ep8_map): no specification of the quadratic tower, of the twist "
-    "endomorphism and of the Frobenius-based cofactor clearing in this slice; the b = 0 branch of ep_map_swift_impl (no curve with b = 0 is "
-    "selectable in the configurations used); binary and Edwards parameter sets other than those of the base / p255 builds",
+    "curves over Fp2 (ep2_map / ep2_map_sswum / ep2_map_basic on the twists of BN_P256, SM9_P256, B12_P381): specification only "
+    "(Spec/HashToCurveExt.lean: private Fp2 = Fp[u]/(u^2 - q) with is_square by the norm, sqrt, sgn0 for m = 2; the generic sswu / svdw / iso_map of "
+    "the prime-curve specification instantiated with it; affine group law over Fp2; the twist endomorphism psi with the constants READ from "
+    "the library and validated by psi(G) = [p]G; the documented cofactor clearings of ep2_mul_cof_bn / ep2_mul_cof_b12); the C code is class C "
+    "(no model); only hashed inputs are presentable (ep2_map_from_field is static), so the exceptional field elements of the Fp2 maps are "
+    "covered by the theorems (any field) but not by the correspondence",
+    "NOT COVERED: ep2_map_swift, ep3 / ep4 / ep8_map (no specification of those towers in this slice); the b = 0 branch of "
+    "ep_map_swift_impl (no curve with b = 0 is selectable in the configurations used); binary and Edwards parameter sets other than those of "
+    "the base / p255 builds",
     "class C (compared with the specification on the presented lines only): the byte-level plumbing of the entry points (which bytes of the "
     "uniform string become which field element, DST of each entry point: \"RELIC\" for ep_map_basic / ed_map, \"RELIC\\0\" (sizeof) for "
     "ep_map_sswum and ep_map_swift), the group law / ep_norm / ep_mul_cof used after the maps (C03), fp_smb / fp_srt / fp_inv (C02), md_xmd (C14), "
@@ -37,7 +43,8 @@ RULE = ("messages of length 0, 1, 31, 32, 33, 55, 56, 63, 64, 65, 127, 128, 129,
         "that reduce to u = 0, +-1, p-1, the roots of Z^2u^4+Zu^2 (SSWU) resp. of (1-u^2 g(Z))(1+u^2 g(Z)) (SvdW), SwiftEC parameters with u = 0, t = 0, "
         "u^3+b+t^2 = 0, representatives >= p before reduction, u0 = u1 and u0 = -u1, too short / too long strings; each curve of the configuration; "
         "eb_map on both binary curves, ed_map / ed_map_dst (DST lengths 0, 1, 5, 16, 254, 255, 256, 300) / ed_map_ell2_5mod8 (u = 0, +-1, values sent to "
-        "the exceptional points of the Montgomery->Edwards map, representatives >= p) with the same message lengths; "
+        "the exceptional points of the Montgomery->Edwards map, representatives >= p) with the same message lengths; ep2_map / ep2_map_sswum / "
+        "ep2_map_basic on the Fp2 twists of BN_P256, SM9_P256, B12_P381; "
         "non-trivial = distinct line whose result is a point other than the identity")
 
 USES_GENERATED = False
@@ -281,7 +288,7 @@ def streams(ctx, scale=1):
             lines += ["ep_map_param %d" % cid] + block + rep
             again += ["ep_map_param %d" % cid] + rep
         res.append({"name": "map-" + cfg, "cfg": cfg, "exe": exe, "lines": lines + again})
-    return res + eb_streams(ctx, scale) + ed_streams(ctx, scale)
+    return res + eb_streams(ctx, scale) + ed_streams(ctx, scale) + ep2_streams(ctx, scale)
 
 
 def group_msgs(rng, op, reps):
@@ -309,6 +316,8 @@ def eb_streams(ctx, scale=1):
     return res
 
 
+# curves over Fp2: (id, twist type); the type is the one for which the driver's check psi(G) = [p]G of the context line holds
+EP2_CURVES = {"base": [(23, "D"), (24, "M")], "p381": [(30, "M")]}     # BN_P256, SM9_P256, B12_P381
 ED_CURVES = {"p255": [1]}     # CURVE_ED25519 (the only Edwards parameter set; FP_PRIME = 255)
 
 
@@ -350,6 +359,25 @@ def ed_streams(ctx, scale=1):
             rep = [rng.choice(block) for _ in range(4)]
             lines += ["ed_map_param %d" % cid] + block + rep
         res.append({"name": "ed-" + cfg, "cfg": cfg, "exe": exe, "lines": lines})
+    return res
+
+
+def ep2_streams(ctx, scale=1):
+    rng = ctx.rng
+    quick = ctx.tier == "quick"
+    res = []
+    for cfg, ids in EP2_CURVES.items():
+        exe = _exe(ctx, cfg)
+        lines, again = ["cfg"], []
+        for (cid, tw) in ids:
+            block = []
+            for v in ("map", "sswum", "basic"):
+                b = group_msgs(rng, "ep2_map " + v, (1 if quick else 6) * scale)
+                block += b if v != "sswum" or not quick else b[::3]
+            rep = [rng.choice(block) for _ in range(3)]
+            lines += ["ep2_map_param %d %s" % (cid, tw)] + block + rep
+            again += ["ep2_map_param %d %s" % (cid, tw)] + rep
+        res.append({"name": "ep2-" + cfg, "cfg": cfg, "exe": exe, "lines": lines + again})
     return res
 
 
